@@ -49,7 +49,8 @@ Definition g_lform (s : sx) : lform :=
   else if n =? "strp" then LF_strp else if n =? "udata" then LF_udata
   else if n =? "data1" then LF_data1 else if n =? "data2" then LF_data2
   else if n =? "data4" then LF_data4 else if n =? "data8" then LF_data8
-  else if n =? "data16" then LF_data16 else LF_block.
+  else if n =? "data16" then LF_data16 else if n =? "strp_sup" then LF_strp_sup
+  else if n =? "GNU_strp_alt" then LF_GNU_strp_alt else LF_block.
 Definition g_fval (s : sx) : fval :=
   let l := gL s in
   let n := gS (nthx 0 l) in
@@ -60,7 +61,10 @@ Definition g_fval (s : sx) : fval :=
   else if n =? "udata" then FV_udata (gI a)
   else if n =? "data1" then FV_data1 (gI a) else if n =? "data2" then FV_data2 (gI a)
   else if n =? "data4" then FV_data4 (gI a) else if n =? "data8" then FV_data8 (gI a)
-  else if n =? "data16" then FV_data16 (gB a) else FV_block (gB a).
+  else if n =? "data16" then FV_data16 (gB a)
+  else if n =? "strp_sup" then FV_strp_sup (gI a) (gB (nthx 2 l))
+  else if n =? "GNU_strp_alt" then FV_GNU_strp_alt (gI a) (gB (nthx 2 l))
+  else FV_block (gB a).
 Definition g_format (s : sx) : list (Z * lform) :=
   map (fun d => (gI (nthx 0 (gL d)), g_lform (nthx 1 (gL d)))) (gL s).
 Definition g_file (s : sx) : file_entry :=
@@ -80,7 +84,15 @@ Definition g_optB (s : sx) : option (list Z) := match s with SB b => Some b | _ 
 Definition g_structs (s : sx) : mstructs :=
   let l := gL s in {| ms_le := gbool (nthx 0 l); ms_is64 := gbool (nthx 1 l); ms_addr := gnat (nthx 2 l) |}.
 Definition g_secs (s : sx) : msections :=
-  let l := gL s in {| sec_line := gB (nthx 0 l); sec_line_str := g_optB (nthx 1 l); sec_str := g_optB (nthx 2 l) |}.
+  let l := gL s in
+  {| sec_line := gB (nthx 0 l); sec_line_str := g_optB (nthx 1 l); sec_str := g_optB (nthx 2 l);
+     (* 4th element: absent or the symbol nosup = no supplementary DWARFInfo; bytes = its .debug_str;
+        any other symbol = a supplementary DWARFInfo without .debug_str *)
+     sec_sup_str := match nthx 3 l with
+                    | SB b => Some (Some b)
+                    | SS t => if (t =? "nostr")%string then Some None else None
+                    | _ => None
+                    end |}.
 
 (* ---------------------------------------------------------------- writing answers *)
 Definition sx_regs (r : regs) : sx :=
@@ -152,10 +164,10 @@ Definition dispatch (req : sx) : sx :=
     (* le k header prog-bytes *)
     SB (encode_unit (gbool a1) (gnat a2) (g_header a3) (gB a4))
   else if op =? "wf_header" then
-    (* header line_str str *)
+    (* header line_str str sup_str *)
     let h := g_header a1 in
     sx_bool (wf_header h && wf_header_values h &&
-             header_refs_ok_b (gB a2) (gB a3) h)
+             header_refs_ok_b (gB a2) (gB a3) (gB a4) h)
   else if op =? "expected_view" then
     (* le k header prog-bytes offset -> (view start end) *)
     let le := gbool a1 in let k := gnat a2 in let h := g_header a3 in let prog := gB a4 in
